@@ -366,60 +366,50 @@ def check_vasp_mode_switch(ctx, rid="R4"):
     prog = ctx.prog
     ctx.rule(rid, "VASP files: Cartesian (angstrom) vs direct (fractional) coordinates are selected by the documented key characters", "a `Kartesian` (or `cart`, `Direct`) file is converted with the wrong formula: coordinates are off by the cell matrix")
     f = prog.func("iodata.formats.chgcar._load_vasp_header")
-    lit = f.posparams[0]
-    # the switch: `if <name>:` with an angstrom product on one side and a cell-vector product on the other
-    sw = None
-    for n in f.own_nodes():
-        if isinstance(n, ast.If) and isinstance(n.test, ast.Name) and n.orelse:
-            tb = " ".join(src_of(x) for x in n.body)
-            eb = " ".join(src_of(x) for x in n.orelse)
-            if "angstrom" in tb and "cellvecs" in eb:
-                sw = (n, n.test.id, True)
-            elif "angstrom" in eb and "cellvecs" in tb:
-                sw = (n, n.test.id, False)
-    if sw is None:
-        raise AnalysisError("chgcar._load_vasp_header: cannot find the Cartesian/direct switch")
-    node, var, cart_when_true = sw
-    body = f.body
-    idx = [i for i, st in enumerate(body) if isinstance(st, ast.Assign) and any(isinstance(t, ast.Name) and t.id == var for t in st.targets)]
-    if len(idx) != 1:
-        raise AnalysisError(f"chgcar._load_vasp_header: `{var}` is not assigned exactly once at the top level")
-    iend = idx[0]
-    used = {x.id for x in ast.walk(body[iend].value) if isinstance(x, ast.Name)}
-    istart = iend
-    while istart > 0:
-        st = body[istart - 1]
-        names = {x.id for x in ast.walk(st) if isinstance(x, ast.Name)}
-        stores = {x.id for x in ast.walk(st) if isinstance(x, ast.Name) and isinstance(x.ctx, ast.Store)}
-        if stores and stores <= used and names <= used | {lit, "next"}:
-            istart -= 1
-        else:
-            break
-    block = body[istart : iend + 1]
-    if istart == iend:
-        raise AnalysisError("chgcar._load_vasp_header: the line feeding the coordinate-mode switch is not read just before it")
-    ce = ConstEval(prog)
-    ce.externals["<feed>.next"] = feed_next
+    # the header reader as a whole on model files: an orthogonal 2 x 3 x 4 cell (angstrom standing for 1000), one atom
+    # at `0.5 0.5 0.5`; Cartesian reading gives (500, 500, 500), direct reading (1000, 1500, 2000) -- whichever
+    # statements compute the switch, and wherever they stand
+    import numpy as np
+
+    from ..accessors import AccessorEval, Raised, Rec
+    from ..symarr import NotSymbolic
+
+    licls = prog.cls("iodata.utils.LineIterator")
+    A = 1000.0
     chars = [c for c in string.ascii_letters + string.digits if c not in "Ss"]
     bad = []
     ncase = 0
     for c in chars:
         for pre in ([], ["Selective dynamics"], ["s"]):
-            feed = LineFeed(pre + [c + "artesian coordinates", "0.0 0.0 0.0"])
-            env = _Env(ce, f.module, f, {lit: feed, "next": feed_next})
+            lines = ["model\n", "   1.0\n", " 2.0 0.0 0.0\n", " 0.0 3.0 0.0\n", " 0.0 0.0 4.0\n", " H\n", " 1\n"] + [p_ + "\n" for p_ in pre] + [c + "artesian coordinates\n", " 0.5 0.5 0.5\n", "\n"]
+            feed = Rec(licls, filename="F", fh=iter(lines), lineno=0, stack=[])
+            ev = AccessorEval(prog, licls, limit=4000)
+            ev.module = f.module
+            ev._globals = {("iodata.utils", "angstrom"): A}
             try:
-                env.run(block)
-            except NotConstant as exc:
-                raise AnalysisError(f"VASP mode-switch code is outside the constant-evaluation whitelist: {exc}") from exc
-            got = bool(env.local[var]) == cart_when_true
+                res = ev.run_free(f, [feed], {})
+                pos = np.asarray(res[3], dtype=float).ravel()
+            except Raised as exc:
+                bad.append((c, pre, f"raises {exc.args[0]}", None))
+                ncase += 1
+                continue
+            except (NotSymbolic, TypeError, ValueError, IndexError) as exc:
+                raise AnalysisError(f"VASP header reader is outside the evaluation whitelist: {exc}") from exc
             ncase += 1
-            if got != (c in VASP_CARTESIAN_KEYS) or feed.pos != len(pre) + 1:
-                bad.append((c, pre, got, feed.pos))
+            if pos.shape == (3,) and np.abs(pos - 0.5 * A).max() < 1e-6:
+                got = True
+            elif pos.shape == (3,) and np.abs(pos - np.array([1.0, 1.5, 2.0]) * A).max() < 1e-6:
+                got = False
+            else:
+                bad.append((c, pre, f"gives the position {pos.tolist()}", None))
+                continue
+            if got != (c in VASP_CARTESIAN_KEYS):
+                bad.append((c, pre, "Cartesian" if got else "direct", got))
     if bad:
-        c, pre, got, pos = bad[0]
-        ctx.violate(rid, f"a coordinate-mode line starting with `{c}`" + (f" after a `{pre[0]}` line" if pre else "") + f" is read as {'Cartesian' if got else 'direct'} (consumed {pos} line(s)); VASP treats exactly the first characters C, c, K, k as Cartesian ({len(bad)} of {ncase} cases differ)", f, body[iend], construct=f"vasp mode `{c}` -> {'cartesian' if got else 'direct'}")
+        c, pre, got, _g = bad[0]
+        ctx.violate(rid, f"a coordinate-mode line starting with `{c}`" + (f" after a `{pre[0]}` line" if pre else "") + f" is read as {got}; VASP treats exactly the first characters C, c, K, k as Cartesian ({len(bad)} of {ncase} cases differ)", f, f.node, construct=f"vasp mode `{c}` -> {str(got).lower()}")
     else:
-        ctx.ok(rid, f"{ncase} cases (first character of the mode line x optional selective-dynamics line): Cartesian iff the line starts with one of `{VASP_CARTESIAN_KEYS}`", f"{f.module.relpath}:{body[iend].lineno}")
+        ctx.ok(rid, f"{ncase} cases (first character of the mode line x optional selective-dynamics line), whole header reader on model files: Cartesian iff the line starts with one of `{VASP_CARTESIAN_KEYS}`", f"{f.module.relpath}:{f.lineno}")
 
 
 # the unit keyword on the [Atoms] line of a Molden file: `[Atoms] (Angs|AU)` in the format description; programs write
